@@ -215,6 +215,6 @@ def strat(maxs):
 SUBS = [
     Sub('inplace_twin', eval_inplace_twin, strategy=strat_twin, quick=600, thorough=10000,
         rule='one in-place-capable operation on a value with position-dependent formatting over a whitespace-rich alphabet: in-place vs copy'),
-    Sub('history', eval_history, strategy=strat(12), quick=400, thorough=4000),
-    Sub('history_long', eval_history, strategy=strat(30), quick=60, thorough=1500),
+    Sub('history', eval_history, strategy=strat(12), quick=400, thorough=3000),
+    Sub('history_long', eval_history, strategy=strat(30), quick=60, thorough=600),
 ]
